@@ -25,7 +25,7 @@ int run_c06t(const Args& a, Recorder& rec) {
     long idx = 0;
     for (int model : { 1, 3 }) for (int T : { 2, 4, 16 }) for (int clear = 0; clear < 2; ++clear) for (int phase : { 2, 3 }) {
         if ((idx++ % a.nshards) != a.shard) continue; if (model == 3 && (T == 16 || phase == 3) && !a.thorough()) continue;
-        VxConfig c; c.harness = "c06"; c.p["model"] = model; c.p["P"] = 1; c.p["phase"] = phase; c.p["comps"] = 2; c.p["clear"] = clear; c.p["split"] = 0; c.p["rdv"] = 0; c.p["omp"] = T; c.p["ompord"] = 0;
+        VxConfig c; c.harness = "c06"; c.p["model"] = model; c.p["P"] = 1; c.p["phase"] = phase; c.p["comps"] = 2; c.p["clear"] = clear; c.p["split"] = 0; c.p["rdv"] = 0; c.p["omp"] = T; c.p["ompord"] = 0; c.p["freqrep"] = 24;
         marker("C06 free-running OpenMP team " + c.str()); VxHarness h = vx_factories().at("c06")(c); h.mpi.omp_free = true; h.reset();
         // GCC's ThreadSanitizer does not instrument aggregate (std::complex) stores, so besides its reports the values are compared too,
         // and each configuration is repeated: on race-free code every repetition gives the single-thread values, so this can never alarm falsely
